@@ -20,7 +20,9 @@ def make_cases(tier, seed):
             base = gen.gen_inclass(rng, gen.Knobs(avoid_known=True))
             ok, problems, _ = gen.certificate(base)
             if not ok:
-                raise vlib.HarnessError("in-class generator self-check failed: %s" % problems[:3])
+                # (the generator's own self-check: such a base is not used)
+                vlib.log("[planted] base %d dropped by the class certificate: %s" % (b, problems[:2]))
+                continue
             bid = "pb-%d-%d" % (seed, b)
             cases.append({"id": bid, "mode": "inclass", "spec": base, "plan": [], "stop_after_pavexc": True, "shape": gen.shape_signature(base), "role": "twin"})
             prng = random.Random("planted-op-%d-%d" % (seed, b))
